@@ -40,7 +40,10 @@ def run(ctx, cfg, fnpath, uninterpreted=None, inline=(), **kw):
     un = uninterpreted or (lambda p: not any(p.endswith(k) for k in inline))
     hyps = kw.pop('hyps', None)
     exact = kw.pop('exact_casts', None)
+    opaque = kw.pop('opaque', None)
     ip = X.Interp(cr, uninterpreted=un, **kw)
+    if opaque:
+        ip.opaque = set(opaque)
     ip.hyps = hyps
     if exact:
         ip.exact_casts = set(exact)
